@@ -204,8 +204,8 @@ def main(tier, seed, args):
         report(rep, name, ex, xpay)
         if ex.violations:
             break
-    if tier == 'thorough' and not rep.violations:
-        h = PayHarness(c, False, 0, 1, ('pending', 'failed_warning', 'error:210'), faults=1)
+    if not rep.violations:
+        h = PayHarness(c, False, 1, 1, ('error:210',) if tier == 'quick' else ('pending', 'failed_warning', 'error:210'), faults=1)
         name = 'pay[1 rpc fault inside wait_payment]'
         ex = run_explorer(rep, c, h, name, max_states=400000)
         report(rep, name, ex, False)
